@@ -49,7 +49,7 @@ Applicable(shape, ft) ==
     \/ /\ ft.sec = "cell" /\ ft.c \in 1..Len(shape) /\ ft.t \in 1..Len(CellTags)
     \/ /\ ft.sec = "face" /\ ft.c \in 1..Len(shape) /\ ft.f \in 1..shape[ft.c] /\ ft.t \in 1..Len(FaceTags)
 Meaningful(ft) ==     \* the fault kind makes sense for the tag
-    ft.sec = "none" \/ ft.kind \in {"omit"} \/
+    ft.sec = "none" \/ ft.kind \in {"omit", "empty", "text", "huge"} \/
     (FaultTag(ft).kind = "num" /\ ft.kind \in {"neg", "zero", "inf"}) \/
     (FaultTag(ft).kind = "int" /\ ft.kind \in {"neg", "zero"})          \* INF in an integer id is a non-numeric value: C17
 
@@ -57,6 +57,11 @@ Meaningful(ft) ==     \* the fault kind makes sense for the tag
 Verdict(ft) ==
     IF ft.sec = "none" THEN "accept"
     ELSE IF ft.kind = "omit" THEN "reject"
+    \* C17: an empty or non-numeric element must be diagnosed; a text tag accepts any text; an empty one is a missing one
+    ELSE IF ft.kind = "text" THEN (IF FaultTag(ft).kind = "str" THEN "accept" ELSE "reject")
+    \* an overflowing number: out of range for a real-valued tag; an integer / boolean tag reads its leading digits
+    ELSE IF ft.kind = "huge" THEN (IF FaultTag(ft).kind = "str" THEN "accept" ELSE IF FaultTag(ft).kind = "num" THEN "reject" ELSE "either")
+    ELSE IF ft.kind = "empty" THEN "reject"
     ELSE LET tg == FaultTag(ft) IN
          IF ft.kind = "neg"  THEN (IF tg.rule \in {"pos", "nonneg"} THEN "reject" ELSE "accept")
          ELSE IF ft.kind = "zero" THEN (IF tg.rule = "pos" THEN "reject" ELSE IF tg.name = "damping_coefficient" THEN "either" ELSE "accept")
